@@ -42,11 +42,13 @@ def run_suite(suite, pid, rng, tier, findings):
     # suites may cap how many cases go through the (slower) in-kernel comparison; the property oracle
     # below still sees every case
     cap = getattr(suite, "coq_cap", {}).get(tier)
-    coq_idx = list(range(len(terms)))
+    coq_idx = [i for i in range(len(terms)) if not (isinstance(cases[i], dict) and cases[i].get("oracle_only"))]
+    terms = [terms[i] for i in coq_idx]
     if cap and len(terms) > cap:
         step = len(terms) / cap
-        coq_idx = sorted({int(i * step) for i in range(cap)})
-        terms = [terms[i] for i in coq_idx]
+        pick = sorted({int(i * step) for i in range(cap)})
+        coq_idx = [coq_idx[i] for i in pick]
+        terms = [terms[i] for i in pick]
     skipped = []
     if getattr(suite, "classify", False):
         bad, skipped = C.run_cases_classify(suite.imports, suite.case_type, suite.chk, terms,
